@@ -264,6 +264,27 @@ class Scenario:
         return self.fin(c, sid) and self.fin(s, sid)
 
 
+_pem = {}
+
+
+def memoise_key_loading():
+    """Parsing the server's 3072-bit RSA key costs ~0.12 s per connection, ten
+    times the simulated handshake; the parsed key object is immutable, so every
+    run shares one (harness-side only, nothing of aioquic's behaviour changes)."""
+    from aioquic.quic import configuration as qconf
+    if getattr(qconf.load_pem_private_key, "_memo", False):
+        return
+    real = qconf.load_pem_private_key
+
+    def load(data, password=None):
+        k = (bytes(data), password)
+        if k not in _pem:
+            _pem[k] = real(data, password)
+        return _pem[k]
+    load._memo = True
+    qconf.load_pem_private_key = load
+
+
 def run_scenario(sc, long_types, alter=None, handshake_only=False):
     """alter(sim, index, d) is called before datagram number `index` is
     delivered.  Returns (completed, client event sigs, server event sigs, n datagrams)."""
@@ -273,8 +294,14 @@ def run_scenario(sc, long_types, alter=None, handshake_only=False):
         def on_packet_built(self, sim, ep, epoch, pn, hdr, payload, size):
             if epoch == "ONE_RTT":
                 self.phases.add((ep.name, (hdr[0] & 4) >> 2))
+
+        def on_packet_authenticated(self, sim, ep, epoch, pn, hdr, payload):
+            self.auth += 1
+    memoise_key_loading()
     mon = PhaseMonitor()
     mon.phases = set()
+    mon.auth = 0
+    trace = []
     sim = sc.make([mon])
     counter = [0]
     orig = sim.deliver
@@ -284,7 +311,10 @@ def run_scenario(sc, long_types, alter=None, handshake_only=False):
         counter[0] += 1
         if alter is not None:
             alter(sim, i, d)
+        n0 = mon.auth
         orig(d, from_addr)
+        kinds = tuple(p["kind"] for p in split_packets(d["data"], long_types)[0])
+        trace.append((d["dst"].name, len(d["data"]), kinds, mon.auth - n0))
     sim.deliver = deliver
     # observation: every decrypt ATTEMPT (the sim's own tap only reports successes)
     from aioquic.quic import crypto as qcrypto
@@ -299,11 +329,23 @@ def run_scenario(sc, long_types, alter=None, handshake_only=False):
         done = sc.run(sim, handshake_only)
         res = (done, merged([event_sig(e) for _, e in sim.client.events]),
                merged([event_sig(e) for _, e in sim.server.events]), counter[0],
-               [(n, repr(e)) for ep in sim.endpoints for n, e in ep.raised], sorted(mon.phases))
+               [(n, repr(e)) for ep in sim.endpoints for n, e in ep.raised], sorted(mon.phases), trace)
     finally:
         qcrypto.CryptoPair.decrypt_packet = inner
         sim.close_taps()
     return res
+
+
+def first_auth_mismatch(control_trace, trace):
+    """index of the first genuine datagram in which fewer / other packets
+    authenticated than in the control run, as long as both runs deliver the same
+    sequence of datagrams (receiver, size, packet kinds); None otherwise"""
+    for i, (a, b) in enumerate(zip(control_trace, trace)):
+        if a[:3] != b[:3]:
+            return None
+        if a[3] != b[3]:
+            return i, a, b
+    return None
 
 
 # ------------------------------------------------------------------ the oracle
@@ -442,7 +484,13 @@ def test_scenario(ctx, sc, long_types, thorough, r, stats):
             stats["violations"] = stats.get("violations", 0) + 1
             continue                      # restart; tested alterations are skipped
         # all alterations of every datagram were silent: the genuine packets must have been accepted as in the control run
-        if not res[0] or res[1] != control[1] or res[2] != control[2] or res[4]:
+        mm = first_auth_mismatch(control[6], res[6])
+        if mm:
+            ctx.witness(f"genuine datagram #{mm[0]} to {mm[1][0]} ({'+'.join(mm[1][2])}): {mm[2][3]} packet(s) authenticated right after "
+                        f"its altered copies were dropped, {mm[1][3]} in the control run ({sc.name()})",
+                        {"scenario": sc.name(), "datagram_index": mm[0], "control": mm[1], "run": mm[2]},
+                        {"oracle": "bitflip-genuine-after", "class": "not-authenticated"})
+        elif not res[0] or res[1] != control[1] or res[2] != control[2] or res[4]:
             ctx.witness(f"after silently dropped altered datagrams the run differs from the unaltered control run ({sc.name()})",
                         {"scenario": sc.name(), "completed": res[0], "client_events": res[1], "server_events": res[2],
                          "control_client": control[1], "control_server": control[2], "raised": res[4]},
@@ -539,6 +587,83 @@ def test_first_datagrams(ctx, sc, long_types, thorough, stats, receivers=("serve
                                  "receiver": found["receiver"]})
 
 
+LEADS = 20     # 0..15: the 16 sample bytes (pn_offset+4 …), 16..19: the four possible packet-number bytes
+
+
+def test_lead_alterations(ctx, sc, long_types, passes, stats):
+    """EXACTLY ONE altered copy of each packet, delivered right after the previous
+    (different) genuine packet and IMMEDIATELY followed by the genuine one, on the
+    live receiver.  The altered byte rotates over the 16 header-protection sample
+    bytes and the packet-number bytes with the datagram ordinal and the pass, so
+    that for every cipher suite every sample byte is hit on 1-RTT packets.  The
+    altered copy must leave no trace; in the genuine datagram the same packets
+    must authenticate as in the control run; the run must end as the control."""
+    control = run_scenario(sc, long_types)
+    if not control[0] or control[4]:
+        ctx.broken.append({"kind": "broken-correspondence", "correspondence": "bitflip-control",
+                           "error": f"control run of {sc.name()} did not complete: {control[4][:2]}"})
+        return
+    covered = set()
+    for m in passes:
+        state = {"violation": None, "log": {}}
+
+        def alter(sim, i, d, m=m):
+            if state["violation"]:
+                return
+            ep, data = d["dst"], d["data"]
+            pkts, end = split_packets(data, long_types)
+            k = (i + m) % LEADS
+            for p in pkts:
+                if p["pn"] is None or p["end"] - p["pn"] < 20:
+                    continue
+                pos = p["pn"] + 4 + k if k < 16 else p["pn"] + (k - 16)
+                mask = 1 << ((i + m) % 8)
+                alt = bytearray(data)
+                alt[pos] ^= mask
+                alt = bytes(alt[p["start"]:p["end"]]) + bytes(len(data) - (p["end"] - p["start"]))
+                before = snapshot(ep)
+                n_att = len(sim.decrypt_attempts)
+                sim.api(ep, "receive_datagram", alt, d["from"], now=sim.now)
+                after = snapshot(ep)
+                stats["lead"] = stats.get("lead", 0) + 1
+                ctx.count(("lead", sc.name(), m, i, pos), True)
+                if p["kind"] == "1rtt":
+                    covered.add(k)
+                state["log"][i] = {"receiver": ep.name, "packet": p["kind"], "byte": pos, "xor": mask,
+                                   "what": f"sample byte {k}" if k < 16 else f"pn byte {k - 16}", "genuine_datagram": data.hex()}
+                kp = first_flight_keys_problem(ep, before, sim.decrypt_attempts[n_att:])
+                if after != before or kp:
+                    changed = sorted(x for x in before if before[x] != after[x])
+                    state["violation"] = (i, kp or f"changed {changed}")
+                    return
+
+        res = run_scenario(sc, long_types, alter)
+        replay = {"scenario": sc.name(), "pass": m,
+                  "procedure": "before each datagram: ONE altered copy of each of its packets (alone, zero-padded), then the genuine datagram"}
+        if state["violation"]:
+            i, what = state["violation"]
+            ctx.witness(f"datagram #{i}: a single altered copy ({state['log'][i]['what']}) was not discarded silently: {what}",
+                        dict(replay, datagram_index=i, **state["log"][i]), {"oracle": "bitflip", "class": "lead-" + state["log"][i]["what"].split()[0]})
+            continue
+        mm = first_auth_mismatch(control[6], res[6])
+        if mm:
+            info = state["log"].get(mm[0], {})
+            ctx.witness(f"genuine datagram #{mm[0]} to {mm[1][0]} ({'+'.join(mm[1][2])} packet): {mm[2][3]} packet(s) authenticated when it "
+                        f"arrived right after ONE altered copy ({info.get('what')}, byte {info.get('byte')} ^= {info.get('xor')}) was "
+                        f"dropped; {mm[1][3]} in the control run — the genuine packet is not accepted afterwards",
+                        dict(replay, datagram_index=mm[0], **info), {"oracle": "bitflip-genuine-after", "class": "lead-not-authenticated",
+                                                                     "suite": sc.suite})
+        elif not res[0] or res[1] != control[1] or res[2] != control[2] or res[4]:
+            ctx.witness(f"after single altered copies the run differs from the unaltered control run ({sc.name()}, pass {m})",
+                        dict(replay, completed=res[0], client_events=res[1], server_events=res[2], raised=res[4]),
+                        {"oracle": "bitflip-genuine-after", "class": "lead"})
+    missing = sorted(set(range(LEADS)) - covered)
+    stats.setdefault("lead_positions_covered_on_1rtt", {})[sc.suite] = LEADS - len(missing)
+    if missing:
+        ctx.broken.append({"kind": "broken-correspondence", "correspondence": "bitflip-lead-coverage",
+                           "error": f"{sc.name()}: lead positions {missing} never hit a 1-RTT packet"})
+
+
 def section_bitflip(ctx, tier, r):
     thorough = tier == "thorough"
     lt = long_types_from_tables()
@@ -551,15 +676,14 @@ def section_bitflip(ctx, tier, r):
     scenarios.append(Scenario(4865, v1, True, 5))
     scenarios.append(Scenario(4867, v2, True, 6))
     # one alteration per fresh pair of endpoints: first datagram at each endpoint / Retry
-    # (quick: both first datagrams for v1, the client Initial for v2, the Retry packet; thorough: all of them,
-    # every bit of every header byte)
     both = ("server", "client")
-    fresh = [(Scenario(4865, v1, False, 21), both), (Scenario(4867, v2, False, 22), both if thorough else ("server",)),
-             (Scenario(4865, v1, True, 23, token=b"tok-" + bytes(range(4))), both if thorough else ("client",))]
-    if thorough:
-        fresh.append((Scenario(4866, v2, True, 24), both))
+    fresh = [(Scenario(4865, v1, False, 21), both), (Scenario(4867, v2, False, 22), both),
+             (Scenario(4865, v1, True, 23, token=b"tok-" + bytes(range(4))), both), (Scenario(4866, v2, True, 24), both)]
     for sc, receivers in fresh:
         test_first_datagrams(ctx, sc, lt, thorough, stats, receivers)
+    # exactly one altered copy, then the genuine packet: every scenario, every lead position for every datagram
+    for sc in scenarios:
+        test_lead_alterations(ctx, sc, lt, range(LEADS), stats)
     for sc in scenarios:
         test_scenario(ctx, sc, lt, thorough, r, stats)
     stats["key_phases_seen"] = sorted(stats.get("key_phases_seen", []))
